@@ -2,6 +2,12 @@
 and the signature function that labels a failing case for known_findings.jsonl."""
 
 PROPS = {
+    'C07': {
+        'families': [('c07', 60, 600)],
+        'rule': 'generated archives in four shapes (CARv1 with optional null padding, CARv2 with embedded index written with/without identity CIDs and with data padding, hand-laid index-less CARv2) x {blockstore.NewReadOnly with embedded/generated index, with a supplied car-index-sorted or car-multihash-index-sorted index; storage.OpenReadable} x {UseWholeCIDs, StoreIdentityCIDs, ZeroLengthSectionAsEOF}; Roots, AllKeysChan and, for every present CID, codec/hash-code variants and absent CIDs: Has, Get (+GetStream), GetSize — compared with the model and with a reference scan of the block list; distinct = distinct script text',
+        'trusted': [],
+        'assumptions': ['a caller-supplied index follows the same StoreIdentityCIDs policy as the store it is given to (documented caveat of ReadOnly.Has/Get)'],
+    },
     'C13': {
         'families': [('c13', 6, 60)],
         'rule': 'generated valid archives (CARv1, CARv2 with padding and index) and structure-aware corruptions of them: a bit flip / increment / decrement / random byte at (a stride over) every offset, truncations, trailing null padding, CARv2 cut at the payload end, inner-header version changed, last section length enlarged; each input through Reader.Inspect(true) and Inspect(false) x ZeroLengthSectionAsEOF; the verdict and every Stats field compared with the model and (full validation) with the statistics of the verifying block-reader scan; distinct = distinct script text',
@@ -128,6 +134,10 @@ def signature(pid, script, I, S):
         return 'C11/' + toks.get('codec', '?') + '-serialisation-differs'
     if pid == 'C13':
         return 'C13/inspect-full' + toks.get('full', '?') + '-differs-from-verifying-scan'
+    if pid == 'C07':
+        if toks.get('kind') == 'size' and _cid_is_identity(toks.get('c', '')):
+            return 'C07/getsize-identity-ignores-store-identity-option'
+        return 'C07/' + fam + '-' + toks.get('kind', 'open') + '-differs-from-scan'
     if pid == 'C20':
         return 'C20/' + fam + '-differs-from-lazy-direct-writer'
     if pid == 'C06':
